@@ -148,7 +148,8 @@ def run(chk):
     ex_m = cf.ThreadPoolExecutor(max_workers=2)
     ex_g = cf.ThreadPoolExecutor(max_workers=3)
     ex_x = cf.ThreadPoolExecutor(max_workers=1)
-    futs = [(ex_m.submit(vlib.tlc, "Synch", c, workers=w, want_printed=False, timeout=3000, xmx="12g"), c) for c, w in mcs]
+    # heap: the quick-tier models have < 1e6 states; a 12g heap made the JVM the preferred victim of the kernel's OOM killer on the shared machine
+    futs = [(ex_m.submit(vlib.tlc, "Synch", c, workers=w, want_printed=False, timeout=3000, xmx="12g" if thorough else "6g"), c) for c, w in mcs]
     fut_ext = ex_x.submit(c13x.run_ext, chk, gmat, gvec, gxfer)
     # A: the mirror assembly of the control layer (lib/c13_mirror.py: configurations on real MPI ranks, judged by spec/MirrorAsm.tla)
     ex_a = cf.ThreadPoolExecutor(max_workers=1)
